@@ -18,6 +18,7 @@ Local Notation "x * y" := (nmul N x y).
 Local Notation "x / y" := (ndiv N x y).
 Local Notation "- x" := (nneg N x).
 Local Notation "x <? y" := (nltb N x y).
+Local Notation "x <=? y" := (nleb N x y).
 Local Notation "x =? y" := (neqb N x y).
 Local Notation "'one'" := (none N).
 Local Notation "'two'" := (nofZ N 2).
@@ -28,14 +29,14 @@ Record part := mkPart { pm : T; px : T; py : T; pz : T; pvx : T; pvy : T; pvz : 
 Record trig := mkTrig { cO : T; sO : T; co : T; so : T; cf : T; sf : T; ci : T; si : T }.
 
 (* inl c  =  *err = c and reb_particle_nan() is returned;  inr p = *err untouched, particle p.
-   tiny is the C macro TINY = 1.E-308. *)
+   tiny is the C macro TINY = 1.E-308 (primary.m <= TINY is rejected since /repo 0972be7, as in reb_orbit_from_particle_err). *)
 Definition from_orbit_err (tiny G : T) (prim : part) (m a e : T) (t : trig) : Z + part :=
   if a =? nzero N then inl 15%Z else
   if e =? one then inl 1%Z else
   if e <? nzero N then inl 2%Z else
   if (if one <? e then nzero N <? a else a <? nzero N) then (if one <? e then inl 3%Z else inl 4%Z) else
   if (e * cf t) <? (- one) then inl 5%Z else
-  if pm prim <? tiny then inl 6%Z else
+  if pm prim <=? tiny then inl 6%Z else
   let r := a * (one - e * e) / (one + e * cf t) in
   let v0 := nsqrt N (G * (m + pm prim) / a / (one - e * e)) in
   let cO := cO t in let sO := sO t in let co := co t in let so := so t in
